@@ -12,6 +12,7 @@ from .c02 import measured_lists
 def _work(payload):
     fails = []
     cnt = 0
+    hist = core.History()
     for item in payload:
         cnt += 1
         kind, m, conn, N, qubits, prep_ops, spec, dens, group = item
@@ -20,9 +21,13 @@ def _work(payload):
         except Exception as ex:      # noqa: BLE001
             import traceback
             msgs = ["raised %s: %s" % (type(ex).__name__, traceback.format_exc()[-300:])]
-        for msg in msgs[:2]:
-            fails.append((msg, {"kind": "fit", "fitter": kind, "m": m, "conn": conn, "N": N, "qubits": qubits,
-                                "prep": [list(g) for g in prep_ops], "dist": list(spec), "density": dens, "group": group}))
+        case = {"kind": "fit", "fitter": kind, "m": m, "conn": conn, "N": N, "qubits": qubits,
+                "prep": [list(g) for g in prep_ops], "dist": list(spec), "density": dens, "group": group}
+        if msgs:
+            cj = hist.attach(case)
+            for msg in msgs[:2]:
+                fails.append((msg, cj))
+        hist.add(case)
     return cnt, fails
 
 
